@@ -220,6 +220,13 @@ class Interp:
                 return a & b
             if op == "|":
                 return a | b
+            if op == "^":
+                return a ^ b
+            if op in ("%", "/") and isinstance(a, int) and isinstance(b, int) and not isinstance(a, bool) and b != 0 \
+                    and a >= 0 and b > 0:
+                return a % b if op == "%" else a // b
+            if op in ("<<", ">>") and isinstance(a, int) and isinstance(b, int) and 0 <= b < 64 and a >= 0:
+                return (a << b) if op == "<<" else (a >> b)
         except TypeError:
             raise Unknown("operands of %s: %r %r" % (op, a, b))
         raise Unknown("binary " + op)
